@@ -27,7 +27,7 @@ const TAG: u64 = 0xC19;
 const INTERP_TOL_U: f64 = 512.0;
 /// quadrature when the exact value is not certified representable:
 /// |got - exact| <= QUAD_TOL_U * u * sum|cell terms|   (a priori bound ~ ncells+4 <= 125)
-const QUAD_TOL_U: f64 = 16384.0;
+const QUAD_TOL_U: f64 = 512.0;
 /// policy: a nodal value that is reproduced only up to rounding (not bit-for-bit) is a violation
 /// (own narrow signature `...:last-node-not-bit-exact` / `...:node-not-bit-exact`).
 /// KNOWN on the pinned tree: `get_interpolated_vars(x_last)` evaluates left + ((right-left)/h)*h in the
@@ -102,6 +102,18 @@ fn gen_grid(rng: &mut Rng, n: usize) -> Grid {
         steps[j] += rng.int(1, 5);
     }
     let mut k = vec![rng.int(-1024, 1024)];
+    for d in steps { let last = *k.last().unwrap(); k.push(last + d); }
+    Grid { k, s }
+}
+
+/// nearly uniform: equal steps except for one or two that are longer by 2^-30..2^-40 of a step (still dyadic, still
+/// non-uniform): a "the mesh is equally spaced" shortcut must not be taken on a tolerance
+fn gen_grid_nearly_uniform(rng: &mut Rng, n: usize) -> Grid {
+    let s = rng.int(30, 40) as u32;
+    let u = rng.int(1, 3) << s;
+    let mut steps: Vec<i64> = vec![u; n - 1];
+    if n >= 3 { for _ in 0..rng.usize(1, 2) { let j = rng.usize(0, n - 2); steps[j] += rng.int(1, 8); } }
+    let mut k = vec![rng.int(-8, 8) << s];
     for d in steps { let last = *k.last().unwrap(); k.push(last + d); }
     Grid { k, s }
 }
@@ -496,6 +508,22 @@ fn offset_case(st: &mut Stats, rng: &mut Rng) {
         }
     }
     st.nontrivial(g.hash(hash_str("offset-grid")));
+}
+
+/// 2-D quadrature on NEARLY uniform grids (own case: nodal data written directly, small integers)
+fn nearly_uniform_case(st: &mut Stats, rng: &mut Rng) {
+    let (nx, ny) = (rng.usize(3, 8), rng.usize(2, 8));
+    let nv = rng.usize(1, 2);
+    let gx = gen_grid_nearly_uniform(rng, nx);
+    let gy = match rng.below(3) { 0 => gen_grid_nearly_uniform(rng, ny), 1 => { let st0 = rng.int(1, 3); Grid { k: (0..ny as i64).map(|i| i * st0).collect(), s: rng.below(3) as u32 } }, _ => gen_grid(rng, ny) };
+    let cls = rng.below(2);
+    let data: Vec<Vec<Vec<i64>>> = (0..nx).map(|_| (0..ny).map(|_| (0..nv).map(|_| rand_val(rng, cls)).collect()).collect()).collect();
+    let mut m = Mesh2D::<f64>::new(Vector::create(gx.fvec()), Vector::create(gy.fvec()), nv);
+    for i in 0..nx { for j in 0..ny { m.set_nodes_vars(i, j, Vector::create(data[i][j].iter().map(|v| *v as f64).collect::<Vec<f64>>())); } }
+    let s = State2 { data, bil: vec![None; nv], hist: vec!["nearly-uniform-grid".into()] };
+    st.count("nearly-uniform-grid-cases");
+    numeric2(st, &m, &gx, &gy, &s);
+    st.nontrivial(gx.hash(gy.hash(hash_str("nearly-uniform"))));
 }
 
 /// output(file, p) then read(file) into a mesh with the same nvars but unrelated nodes/data
@@ -943,6 +971,7 @@ pub fn run(ctx: &Ctx) -> Report {
             return;
         }
         offset_case(st, rng);
+        nearly_uniform_case(st, rng);
         for _ in 0..10 {
             let nv = rng.usize(1, 4);
             match rng.below(10) {
